@@ -842,14 +842,14 @@ def r_ticks_on_the_gantt_axes(ctx):
 C17_RULES.append(r_ticks_on_the_gantt_axes)
 
 
-def _six_digits(fv):
-    """the formatted value always renders as six characters: a zero-filled width of 6 (format spec, zfill, rjust/ljust with a fill
+def _six_digits(value, format_spec=None):
+    """the value always renders as six characters: a zero-filled width of 6 (format spec, zfill, rjust/ljust with a fill
     digit), or six characters cut out of a hexdigest (always 32+ hex digits)"""
-    if fv.format_spec is not None:
-        spec = "".join(str(c.value) for c in fv.format_spec.values if isinstance(c, ast.Constant))
+    if format_spec is not None:
+        spec = "".join(str(c.value) for c in format_spec.values if isinstance(c, ast.Constant))
         if re.fullmatch(r"(0[<>]|0)6[xXdb]?", spec):
             return True
-    v = fv.value
+    v = value
     if isinstance(v, ast.Call) and isinstance(v.func, ast.Attribute) and v.args and isinstance(v.args[0], ast.Constant) and v.args[0].value == 6:
         if v.func.attr == "zfill" or (v.func.attr in ("rjust", "ljust") and len(v.args) == 2 and isinstance(v.args[1], ast.Constant)
                                       and str(v.args[1].value) in "0123456789abcdefABCDEF" and len(str(v.args[1].value)) == 1):
@@ -863,28 +863,52 @@ def _six_digits(fv):
     return False
 
 
+def _string_parts(e, single):
+    """the pieces a string expression is put together from, left to right: f-string parts, `+` operands; a local name assigned
+    once stands for its value"""
+    if isinstance(e, ast.JoinedStr):
+        return [q for p_ in e.values for q in _string_parts(p_, single)]
+    if isinstance(e, ast.BinOp) and isinstance(e.op, ast.Add):
+        return _string_parts(e.left, single) + _string_parts(e.right, single)
+    if isinstance(e, ast.Name) and e.id in single:
+        return _string_parts(single[e.id], {k: v for k, v in single.items() if k != e.id})
+    return [e]
+
+
 def r_excel_color(ctx):
     """'exporting to an Excel workbook succeeds for every valid solution': with colours on, a cell colour is derived from the text
     of the cell.  xlsxwriter accepts `#RRGGBB` only (trusted library fact): the colour string must have six hex digits for EVERY
     text - a slice of a decimal rendering has fewer for small numbers (crc32('') is 0: the colour of a task without resource was
-    '#').  Decided on the helper: what follows '#' is formatted to a fixed width of 6."""
+    '#').  Decided on the helper: every returned string is a `#RRGGBB` literal or '#' + one value rendered at a fixed width of 6."""
     fn = ctx.project.function("excel_io", "_get_color_from_string")
-    rets = [n for n in ast.walk(fn) if isinstance(n, ast.Return) and isinstance(n.value, ast.JoinedStr)]
+    assigned = {}
+    for n_ in ast.walk(fn):
+        if isinstance(n_, ast.Assign) and len(n_.targets) == 1 and isinstance(n_.targets[0], ast.Name):
+            assigned.setdefault(n_.targets[0].id, []).append(n_.value)
+    single = {k: v[0] for k, v in assigned.items() if len(v) == 1}
     n = 0
-    for r in rets:
-        parts = r.value.values
-        if not (parts and isinstance(parts[0], ast.Constant) and str(parts[0].value).startswith("#")):
+    for r in [x for x in ast.walk(fn) if isinstance(x, ast.Return) and x.value is not None]:
+        parts = _string_parts(r.value, single)
+        if all(isinstance(p_, ast.Constant) and isinstance(p_.value, str) for p_ in parts):
+            text = "".join(p_.value for p_ in parts)
+            if re.fullmatch(r"#[0-9A-Fa-f]{6}", text):
+                ctx.ok("R-EXCEL-COLOR", f"excel_io._get_color_from_string: the literal {text}")
+            else:
+                ctx.violation("R-EXCEL-COLOR", "excel_io._get_color_from_string", "colour literal", f"'{text}' is not #RRGGBB",
+                              f"processscheduler/excel_io.py:{r.lineno}")
             continue
         n += 1
-        fv = [p for p in parts if isinstance(p, ast.FormattedValue)]
-        fixed = len(fv) == 1 and _six_digits(fv[0])
+        head = parts[0] if parts else None
+        dyn = parts[1:]
+        fixed = isinstance(head, ast.Constant) and head.value == "#" and len(dyn) == 1 and (
+            _six_digits(dyn[0].value, dyn[0].format_spec) if isinstance(dyn[0], ast.FormattedValue) else _six_digits(dyn[0]))
         if fixed:
-            ctx.ok("R-EXCEL-COLOR", "excel_io._get_color_from_string: '#' + a value formatted to 6 digits")
+            ctx.ok("R-EXCEL-COLOR", "excel_io._get_color_from_string: '#' + a value rendered with exactly 6 digits")
         else:
             ctx.violation("R-EXCEL-COLOR", "excel_io._get_color_from_string", "colour string of variable length",
-                          f"`{ast.unparse(r.value)[:80]}` takes a slice of a decimal string: for a small hash it has fewer than six digits "
-                          f"(the text '' - a task without resource - gives '#') and xlsxwriter raises 'Invalid color value'",
-                          f"processscheduler/excel_io.py:{r.lineno}")
+                          f"`{ast.unparse(r.value)[:80]}`: what follows '#' is not rendered at a fixed width of six - a slice of a decimal "
+                          f"string has fewer digits for a small hash (the text '' - a task without resource - gave '#') and xlsxwriter "
+                          f"raises 'Invalid color value'", f"processscheduler/excel_io.py:{r.lineno}")
     ctx.floor("R-EXCEL-COLOR", "colour strings built from a hash", n, 1)
 
 
